@@ -1,5 +1,5 @@
 From Coq Require Import List ZArith Bool Lia.
-From XV Require Import Model.Backoff.
+From XV Require Import Gen.Generated Model.Backoff.
 Import ListNotations.
 Open Scope Z_scope.
 
@@ -14,6 +14,24 @@ Definition bounds (b : backoff) : Prop :=
 
 Lemma bounds_positive b : bounds b -> positive_params b.
 Proof. unfold bounds, positive_params. lia. Qed.
+
+(* ---- the only facts used about the code's default constants; re-proved on every run
+   against the regenerated Generated.v: fails exactly when a default is made
+   non-positive, larger than 2^40, or the default cap longer than three minutes ---- *)
+Definition three_minutes : Z := 3 * 60 * 1000000000.   (* ns *)
+
+Lemma defaults_ok :
+  0 < default_base <= 2 ^ 40 /\ 0 < default_factor <= 2 ^ 40 /\ 0 < default_cap <= 2 ^ 40 /\
+  default_cap * 1000000 <= three_minutes.
+Proof. vm_compute. repeat split; try reflexivity; discriminate. Qed.
+
+Lemma dflt_nonzero :
+  (dflt_base =? 0) = false /\ (dflt_factor =? 0) = false /\ (dflt_cap =? 0) = false.
+Proof.
+  unfold dflt_base, dflt_factor, dflt_cap.
+  destruct defaults_ok as (H1 & H2 & H3 & _).
+  repeat split; apply Z.eqb_neq; lia.
+Qed.
 
 (* ---- the saturating loop computes min(cap, base * factor^n) ---- *)
 Lemma pow_ge_1 f k : 0 < f -> 0 <= k -> 1 <= f ^ k.
@@ -110,9 +128,10 @@ Qed.
 (* ---- setDefault ---- *)
 Lemma set_default_idem b : set_default (set_default b) = set_default b.
 Proof.
+  destruct dflt_nonzero as (N1 & N2 & N3).
   unfold set_default; cbn [no_jitter base factor cap attempt].
   destruct (base b =? 0) eqn:E1, (factor b =? 0) eqn:E2, (cap b =? 0) eqn:E3;
-    cbn; rewrite ?E1, ?E2, ?E3; reflexivity.
+    rewrite ?N1, ?N2, ?N3, ?E1, ?E2, ?E3; reflexivity.
 Qed.
 
 Lemma set_default_nonzero b :
@@ -226,9 +245,10 @@ Qed.
 
 Lemma params_bump_default b : params (set_default (bump (set_default b))) = params (set_default b).
 Proof.
+  destruct dflt_nonzero as (N1 & N2 & N3).
   unfold bump, params, set_default; cbn [no_jitter base factor cap attempt].
   destruct (base b =? 0) eqn:E1, (factor b =? 0) eqn:E2, (cap b =? 0) eqn:E3;
-    cbn; rewrite ?E1, ?E2, ?E3; reflexivity.
+    rewrite ?N1, ?N2, ?N3, ?E1, ?E2, ?E3; reflexivity.
 Qed.
 
 Lemma positive_params_eq b1 b2 : params b1 = params b2 -> positive_params b1 -> positive_params b2.
@@ -355,6 +375,29 @@ Proof.
   destruct (dur_seq (reset b) (zeros m)) as [b1 os]. cbn [fst snd] in *.
   rewrite H1. unfold zeros at 1. rewrite repeat_length. f_equal.
   apply IH; assumption.
+Qed.
+
+(* ---- defaults: an unset value gets the code's constants, is inside the hypotheses of
+   the theorems, and a cap left unset keeps every delay within three minutes ---- *)
+Lemma set_default_all_zero nj a :
+  set_default (mkBackoff nj 0 0 0 a) = mkBackoff nj default_base default_factor default_cap a.
+Proof. reflexivity. Qed.
+
+Lemma bounds_all_zero nj a : bounds (set_default (mkBackoff nj 0 0 0 a)).
+Proof.
+  rewrite set_default_all_zero. unfold bounds; cbn [base factor cap].
+  destruct defaults_ok as (H1 & H2 & H3 & _). auto.
+Qed.
+
+Lemma default_cap_three_minutes b n r :
+  cap b = 0 -> bounds (set_default b) -> 0 <= n ->
+  exists ns, snd (dur_for_attempt b n r) = Dur ns /\ 0 <= ns <= three_minutes.
+Proof.
+  intros Hc Hb Hn. destruct (dfa_bounded b n r Hb Hn) as (d & Hd & Hr).
+  exists (d * millisecond). split; [exact Hd|].
+  assert (cap (set_default b) = default_cap) as E
+    by (unfold set_default; cbn [cap]; rewrite Hc; reflexivity).
+  rewrite E in Hr. destruct defaults_ok as (_ & _ & _ & H3). unfold millisecond. lia.
 Qed.
 
 (* ---- D22: outside the bound the int64 conversion wraps to a negative delay ---- *)
